@@ -27,8 +27,8 @@ def gen_cases(seed, tier, n):
     return pC08.gen_cases(seed, tier, n)
 
 
-def _snapshot(g):
-    return {"w": sorted([int(u), int(v), int(g.edges[u, v]["weight"])] for u, v in g.edges),
+def _snapshot(g, T=int):
+    return {"w": sorted([int(u), int(v), T(g.edges[u, v]["weight"])] for u, v in g.edges),
             "cp_nodes": [int(x) for x in g.critical_path_nodes],
             "cp_events": sorted(int(x) for x in g.critical_path_events_set),
             "cp_pairs": sorted([int(e.begin), int(e.end)] for e in g.critical_path_edges_set)}
@@ -40,20 +40,33 @@ def run_impl(case, d):
         return res
     res["order"] = pC08.topo_order(res["graph"])
     rng = random.Random(case["params"]["pseed"] + 17)
-    snaps = [_snapshot(g)]
+    k = fw.time_scale(case)
+    T = int if k == 1 else (lambda x: fw.as_int(x * k))
+    snaps = [_snapshot(g, T)]
+    # history: the path is drawn into a trace file (any option combination); the reported sets are read again afterwards
+    try:
+        import os
+        oc, sa = rng.random() < 0.5, rng.random() < 0.5
+        ta.overlay_critical_path_analysis(res["rank"], g, os.path.join(d, "ov_c09"), only_show_critical_events=oc, show_all_edges=sa)
+        s = _snapshot(g, T)
+        s["after_overlay"] = [oc, sa]
+        s["restored"] = True
+        snaps.append(s)
+    except Exception as e:
+        snaps.append({"error": "overlay_critical_path_analysis: " + type(e).__name__ + ": " + str(e)[:160]})
     for _ in range(2):
         for u, v in list(g.edges):
             if rng.random() < 0.3:
-                g.edges[u, v]["weight"] = int(g.edges[u, v]["weight"]) * rng.choice([0, 2, 3, 10])
-        if all(int(g.edges[u, v]["weight"]) == 0 for u, v in g.edges):
+                g.edges[u, v]["weight"] = (int(g.edges[u, v]["weight"]) if k == 1 else g.edges[u, v]["weight"]) * rng.choice([0, 2, 3, 10])
+        if all(T(g.edges[u, v]["weight"]) == 0 for u, v in g.edges):
             break           # a graph whose weights are all zero has no critical path to speak of (C08's known finding)
         try:
-            wset = {(int(u), int(v)): int(g.edges[u, v]["weight"]) for u, v in g.edges}
+            wset = {(int(u), int(v)): T(g.edges[u, v]["weight"]) for u, v in g.edges}
             ok = g.critical_path()
-            s = _snapshot(g)
+            s = _snapshot(g, T)
             s["ok"] = bool(ok)
             # the what-if weights are the user's: recomputing the path must not alter them
-            s["weights_changed"] = [[u, v, wset[(u, v)], int(g.edges[u, v]["weight"])] for (u, v) in wset if int(g.edges[u, v]["weight"]) != wset[(u, v)]][:3]
+            s["weights_changed"] = [[u, v, wset[(u, v)], T(g.edges[u, v]["weight"])] for (u, v) in wset if T(g.edges[u, v]["weight"]) != wset[(u, v)]][:3]
             snaps.append(s)
         except Exception as e:
             snaps.append({"error": type(e).__name__ + ": " + str(e)[:160]})
@@ -61,9 +74,9 @@ def run_impl(case, d):
     if len(snaps) > 1 and "w" in snaps[0]:
         try:
             for u, v, w0 in snaps[0]["w"]:
-                g.edges[u, v]["weight"] = w0
+                g.edges[u, v]["weight"] = w0 if k == 1 else w0 / k
             ok = g.critical_path()
-            s = _snapshot(g)
+            s = _snapshot(g, T)
             s["ok"] = bool(ok)
             s["restored"] = True
             snaps.append(s)
@@ -99,7 +112,7 @@ def compare(case, impl, model):
         return []
     disc = []
     for k, (s, m) in enumerate(zip(impl["snaps"], model)):
-        which = "original weights" if k == 0 else ("measured weights put back after the what-if runs" if s.get("restored") else f"re-weighted copy {k}")
+        which = "original weights" if k == 0 else f"after overlay_critical_path_analysis(only_show_critical_events, show_all_edges = {s['after_overlay']})" if s.get("after_overlay") else ("measured weights put back after the what-if runs" if s.get("restored") else f"re-weighted copy {k}")
         if "error" in s:
             disc.append(f"{which}: critical_path() raised {s['error']} {w}")
             continue
